@@ -30,12 +30,15 @@ func init() {
 		variant{Name: "benign-solexa-table-subscript-guarded", File: lett, Find: "\t\treturn (Qsolexa(q) - 64).Qphred()\n", Replace: "\t\tif q >= 0xc0 {\n\t\t\treturn 0xff\n\t\t}\n\t\treturn solexaPhredTable[int(q)-64+128]\n"},
 	)
 	add("C06",
+		variant{Name: "compose-extent-not-clamped", File: utils, Find: "\t\tl := max(0, min(f.End(), end)-max(f.Start(), offset))\n", Replace: "\t\tl := min(f.End(), end) - max(f.Start(), offset)\n", Rule: "nonneglen", Key: "sequtils.Compose/Make"},
+		variant{Name: "benign-compose-extent-clamped-by-if", File: utils, Find: "\t\tl := max(0, min(f.End(), end)-max(f.Start(), offset))\n", Replace: "\t\tl := min(f.End(), end) - max(f.Start(), offset)\n\t\tif l < 0 {\n\t\t\tl = 0\n\t\t}\n"},
 		variant{Name: "trim-start-moved-on-reset", File: utils, Find: "\t\t\tsum, begin = 0, i+1\n", Replace: "\t\t\tsum, start = 0, i+1\n", Rule: "trimwindow", Key: "sequtils.Trim/start-committed-with-end", More: []edit{{utils, "\t\t\tmax, start, end = sum, begin, i+1\n", "\t\t\tmax, end = sum, i+1\n"}}},
 		variant{Name: "trim-start-not-from-sequence-start", File: utils, Find: "\tbegin := q.Start()\n\tstart, end = begin, begin\n", Replace: "\tbegin := q.Start()\n\tend = begin\n", Rule: "trimwindow", Key: "sequtils.Trim/start-initialised-from-Start()"},
 		variant{Name: "benign-trim-best-window-in-locals", File: utils, Find: "\tstart, end = begin, begin\n\tfor i := q.Start(); i < q.End(); i++ {\n\t\tsum += limit - q.EAt(i)\n\t\tif sum < 0 {\n\t\t\tsum, begin = 0, i+1\n\t\t}\n\t\tif sum >= max {\n\t\t\tmax, start, end = sum, begin, i+1\n\t\t}\n\t}\n\treturn\n", Replace: "\tbestStart, bestEnd := begin, begin\n\tfor i := q.Start(); i < q.End(); i++ {\n\t\tsum += limit - q.EAt(i)\n\t\tif sum < 0 {\n\t\t\tsum, begin = 0, i+1\n\t\t}\n\t\tif sum >= max {\n\t\t\tmax, bestStart, bestEnd = sum, begin, i+1\n\t\t}\n\t}\n\treturn bestStart, bestEnd\n"},
 		variant{Name: "benign-compose-ranges-over-features", File: utils, Find: "\tfor i, ts := range t {\n\t\tif f, ok := ff[i].(feat.Orienter); ok && f.Orientation() == feat.Reverse {", Replace: "\tfor i, fi := range ff {\n\t\tts := t[i]\n\t\tif f, ok := fi.(feat.Orienter); ok && f.Orientation() == feat.Reverse {"},
 	)
 	add("C07",
+		variant{Name: "subseq-rows-by-reflect-new", File: multi, Find: "\t\trs, ok := r.Clone().(sequtils.Sliceable)\n\t\tif !ok {\n\t\t\treturn nil, fmt.Errorf(\"multi: cannot take subsequence of %T\", r)\n\t\t}\n", Replace: "\t\trs := reflect.New(reflect.TypeOf(r)).Interface().(sequtils.Sliceable)\n", Rule: "reflectnew", Key: "multi.(*Multi).Subseq/reflect.New"},
 		variant{Name: "benign-isflush-two-independent-tests", File: multi,
 			Find:    "\tvar start, end int\n\tfor i, r := range m.Seq {\n\t\tif lt, rt := r.Start(), r.End(); i > 0 &&\n\t\t\t((lt != start && where&seq.Start != 0) ||\n\t\t\t\t(rt != end && where&seq.End != 0)) {\n\t\t\treturn false\n\t\t} else if i == 0 {\n\t\t\tstart, end = lt, rt\n\t\t}\n\t}\n\treturn true\n",
 			Replace: "\tstart, end := m.Seq[0].Start(), m.Seq[0].End()\n\tfor _, r := range m.Seq[1:] {\n\t\tif where&seq.Start != 0 && r.Start() != start {\n\t\t\treturn false\n\t\t}\n\t\tif where&seq.End != 0 && r.End() != end {\n\t\t\treturn false\n\t\t}\n\t}\n\treturn true\n"},
